@@ -18,7 +18,7 @@ import sys
 
 from hypothesis import strategies as st
 
-from pbt.core import REPO, VERIF, HarnessError, Outcome
+from pbt.core import CaseCpuExceeded, REPO, VERIF, HarnessError, Outcome
 
 TECHNIQUE = "generation of expression ASTs over every ast.expr node class + raw text + a resource-bomb grammar; oracles: totality, confinement differential against a reference evaluator that raises Forbidden, a process-wide audit hook, an audit of the live function table, and a CPU-budgeted sandbox"
 LEVEL_TEXT = ("Exploration: expressions built bottom-up from all ast.expr subclasses of the running interpreter (names drawn from builtins, dunders, module names, the allow-list and registered tools), "
@@ -42,6 +42,7 @@ MIN_NONTRIVIAL_FRACTION = 0.2
 CASE_CPU_S = 40                 # in-process cases: far above 20*timeout+2 s for every timeout the generator draws
 CPU_SIGNATURE = "resource:cpu-bound-exceeded:in-process"
 RULE += " Added after the seeded rounds: " + 'Every case may carry `pre`: the same or other expressions evaluated first by fresh engines, so a result that depends on what the process evaluated before is found and reproducible from the replay file.'
+RULE += " Text-scan bombs (an opener followed by a long pump of one or two characters, never closed) are part of the sandboxed bomb grammar (40 quick / 990 thorough) and, with pumps up to 150, of the generated raw texts; an in-process evaluation that burns 40 s of CPU is reported through the runner's per-case CPU guard."
 
 ALLOWED_NODES = (ast.Constant, ast.BinOp, ast.UnaryOp, ast.BoolOp, ast.Compare, ast.IfExp, ast.List, ast.Tuple, ast.Name, ast.Call)
 ALLOWED_BINOPS = (ast.Add, ast.Sub, ast.Mult, ast.Div, ast.FloorDiv, ast.Mod, ast.Pow)
@@ -501,6 +502,8 @@ def _judge_expr(case):
             pm.metabolize(expr, pwmap[prepw])
         except (HarnessError, KeyboardInterrupt):
             raise
+        except CaseCpuExceeded:
+            raise
         except BaseException as e:
             out.nontrivial = True
             out.fail("raise:%s:pre-evaluation" % type(e).__name__, "metabolize raised %s on pathway %s" % (type(e).__name__, prepw), d)
@@ -536,6 +539,8 @@ def _judge_expr(case):
         finally:
             events = _disarm()
     except (HarnessError, KeyboardInterrupt):
+        raise
+    except CaseCpuExceeded:
         raise
     except BaseException as e:      # incl. SystemExit raised by a reachable exit()/quit()
         tb = e.__traceback__
